@@ -230,7 +230,7 @@ def batch_limit_case():
 
 def run(res, tier, seed, search=False, have_drv=True):
     rnd = random.Random(seed)
-    cases = list(WITNESSES) + [batch_limit_case()]
+    cases = list(WITNESSES) + [batch_limit_case()] + C.load_case_corpus("C10", "sched")
     for i in range((250 if tier == "quick" else 8000) * (4 if search else 1)):
         cases.append(random_case(rnd, i))
     cases += window_cases(3 if tier == "quick" and not search else 1)
